@@ -13,7 +13,7 @@ _whole.install(globals(), "C07",
                     "child lists and that every seed is an individual of the parent's population at the moment of sprouting (and in the child's initial population).",
                note="The seed clauses are decided on real rounds by the monitor and by the history machine's strict HBegin events (seed = an individual of the parent's current generation); the machine replay compares the last component of every id string.",
                technique="Coq invariant (well-formed forest) over all event streams + vm_compute trace replay against the real package",
-               front_ends=["driver"], quick=240, thorough=6000, nontrivial=nontrivial, extra_checks=[_whole.make_sessions("C07", {"height": 2, "sprout": {"kind": "nbc", "gen_dist": 1.0, "trunc": 1.0, "fil_dist": 0.0, "level_limit": 4}, "gsc": {"kind": "MetaepochLimit", "n": 2}})],
+               front_ends=["driver", "ctor"], quick=240, thorough=6000, nontrivial=nontrivial, extra_checks=[_whole.make_sessions("C07", {"height": 2, "sprout": {"kind": "nbc", "gen_dist": 1.0, "trunc": 1.0, "fil_dist": 0.0, "level_limit": 4}, "gsc": {"kind": "MetaepochLimit", "n": 2}})],
                forces=[(2, None), (2, {"height": 3}), (1, {"height": 3, "objective_kind": "plateau", "engines": ["SEA", "SEA", "DE"]}),
                        (1, {"height": 2, "narrowing_boxes": True, "wrappers": "none", "box_style": "sym", "objective_kind": "funnel", "engines": ["SEA", "SEA"], "dim": 2, "levels_patch": [{}, {"sample_std": 3.0}]}),
                        (1, {"height": 3, "narrowing_boxes": True, "wrappers": "none", "box_style": "sym", "engines": ["DE", "SEA", "DE"], "dim": 2, "levels_patch": [{}, {"sample_std": 3.0}, {"sample_std": 3.0}]})])
